@@ -337,6 +337,38 @@ def _run(tape, out, elfi, root):
         r.drop_isolated_private(old_pars)
         return 'become'
 
+    def become_inline(P):
+        """'Change the operation / family, keep the inputs': the replacement is created inline
+        with the node's own parents, so it SHARES the node's private constants (and any
+        auto-named private parents) with the node it replaces."""
+        m, r = P.model, P.ref
+        cands = [a for a in sorted(r.nodes)
+                 if r.nodes[a]['pos'] and not r.nodes[a].get('gapped') and
+                 r.nodes[a]['cls'] in ('Prior', 'Operation', 'Simulator', 'Summary',
+                                       'Discrepancy')]
+        if not cands:
+            return None
+        a = tape.choice('become_inline_node', cands)
+        cls = r.nodes[a]['cls']
+        pars = m[a].parents
+        if len(pars) != len(r.nodes[a]['pos']):
+            return None
+        if cls == 'Prior':
+            dist = 'norm' if r.nodes[a]['op'] == 'prior:uniform' else 'uniform'
+            new = elfi.Prior(dist, *pars, model=m)
+            op = 'prior:' + dist
+        else:
+            o = mk_op({'Operation': 'op', 'Simulator': 'sim', 'Summary': 'sum',
+                       'Discrepancy': 'disc'}[cls])
+            new = getattr(elfi, cls)(o, *pars, model=m)
+            op = o.key
+        m[a].become(new)
+        r.nodes[a] = {'cls': cls, 'op': op, 'pos': list(r.nodes[a]['pos']),
+                      'param': cls == 'Prior', 'meta': False}
+        r.observed.pop(a, None)
+        out.probes['become_inline_shared_private_parents'] += 1
+        return 'become'
+
     def remove(P):
         m, r = P.model, P.ref
         leaves = [n for n in sorted(r.nodes) if not r.children(n)]
@@ -454,10 +486,11 @@ def _run(tape, out, elfi, root):
         else:
             opname = tape.choice('op', ['add', 'add', 'become', 'remove', 'set_params',
                                         'set_observed', 'copy', 'saveload', 'set_meta', 'add',
-                                        'copy', 'named_edge', 'become', 'explicit_slots'])
+                                        'copy', 'named_edge', 'become', 'explicit_slots',
+                                        'become_inline'])
         if opname in ('copy', 'saveload') and len(parties) >= 4:
             opname = 'add'
-        fn = {'add': add_node, 'become': become, 'remove': remove, 'set_params': set_params,
+        fn = {'add': add_node, 'become': become, 'become_inline': become_inline, 'remove': remove, 'set_params': set_params,
               'set_observed': set_observed, 'copy': do_copy, 'saveload': do_saveload,
               'set_meta': set_meta, 'named_edge': add_named_edge,
               'explicit_slots': add_explicit_slots}[opname]
